@@ -555,6 +555,72 @@ def c12(ctx):
                      "bit-exact fidelity for ALL field values is not claimed (boundary grid)" % (2 if ctx.quick else 3))
 
 
+def crash_as_violation(ctx, ps, outdir, mode, mon):
+    """A harness process that died (a panic in a pion goroutine cannot be recovered from outside) is a
+    verdict for the properties whose subject is 'never panics': the journal names the scenario."""
+    for k, p in enumerate(ps):
+        if p.returncode == 0:
+            continue
+        text = p.stdout + p.stderr
+        scen = "?"
+        try:
+            scen = json.load(open(os.path.join(outdir, "%s-%d.journal" % (mode, k)))).get("scenario", "?")
+        except Exception:
+            pass
+        if "panic:" in text or "fatal error:" in text:
+            first = [ln for ln in text.splitlines() if ln.startswith("panic:") or ln.startswith("fatal error:")][:1]
+            ctx.add_violation(mon, scen, [first[0][:200] if first else "panic"])
+        elif "scenarios hung" in text or "VF-HANG" in text:
+            ctx.add_violation(mon.replace("Panic", "Hang"), scen, ["real-time watchdog"])
+        else:
+            raise L.MachineryError("harness %s failed:\n" % mode + text[-3000:])
+
+
+@check("C03", ["C03_"])
+def c03(ctx):
+    binp = ctx.harness()
+    # framing level: every length malformation of every enumerated bundle (shared with C12)
+    cfg = "MC_Framing_2.cfg"
+    r = L.run_tlc(ctx.scr, "MC_Framing", cfg, workers=8, timeout=900, heap="8g")
+    if not r["ok"]:
+        raise L.MachineryError("MC_Framing did not pass")
+    ctx.design.append({"module": "MC_Framing", "cfg": cfg, "distinct": r["distinct"], "generated": r["generated"], "wall_s": r["wall_s"], "ok": True, "cmd": r["cmd"]})
+    path = os.path.join(r["wd"], "bundles.jsonl")
+    with open(path, "w") as f:
+        for line in r["out"].splitlines():
+            m = re.match(r'<<"BEHAVIOUR", "(.*)">>\s*$', line)
+            if m:
+                f.write(m.group(1).replace('\\"', '"').replace("\\\\", "\\") + "\n")
+    out = ctx.scr.mkdir("framing")
+    ps = L.run_shards(binp, "framing", out, 8, {"VF_IN": path, "VF_NSHARDS": 8, "VF_NSEEDS": 1})
+    crash_as_violation(ctx, ps, out, "framing", "C03_Panic")
+    ctx.validate(sorted(glob.glob(os.path.join(out, "framing-*.ndjson"))), module="FramingTrace", cfg="FramingTrace.cfg")
+    # state x class matrix
+    out = ctx.scr.mkdir("adversary")
+    ps = L.run_shards(binp, "adversary", out, 16, {"VF_NSHARDS": 16})
+    crash_as_violation(ctx, ps, out, "adversary", "C03_Panic")
+    files = sorted(glob.glob(os.path.join(out, "adversary-*.ndjson")))
+    for f in files:
+        for line in open(f):
+            if '"ev":"cfg"' in line:
+                ctx.distinct.add(("adv", json.loads(line)["label"].split("#")[0]))
+    ctx.exhaustive = True
+    # seeded byte-level mutations of genuine packets
+    out2 = ctx.scr.mkdir("fuzz")
+    ps = L.run_shards(binp, "fuzz", out2, 8 if ctx.quick else 16, {"VF_N": 6 if ctx.quick else 300, "VF_NMUT": 20 if ctx.quick else 40, "VF_SEED": ctx.seed})
+    crash_as_violation(ctx, ps, out2, "fuzz", "C03_Panic")
+    files += sorted(glob.glob(os.path.join(out2, "fuzz-*.ndjson")))
+    # recv component: inbound-driven structure must not panic either
+    recv_component(ctx, "C03")
+    ctx.validate(files)
+    ctx.notes.append("adversary: 7 association situations x 43 invalid/misplaced packet classes x DATA/I-DATA x both endpoints, each followed by normal "
+                     "traffic to completion; fuzz: seeded mutations (bit flips, truncation, length edits, splices, garbage) of genuine packets; "
+                     "'all byte strings' is sampled, not enumerated (DESIGN section 6)")
+
+
+EXTRA["C03"] = ["C01_", "C02_Delivered", "C06_Genuine", "C06_AtMostOnce", "C17_WrongKindAbort"]
+
+
 @check("C10", ["C10_"])
 def c10(ctx):
     files = transfer_family(ctx)
